@@ -714,7 +714,7 @@ def _spaces(tier):
         sp.append(Space("kexp/quick: orders 0..8 x 0..8 x reaction system (36) x quantity system cm/ms/µmol x {str, UnitValue}",
                         "kexp", [("n", ORDERS), ("m", ORDERS), ("sys", SYS36), ("qsys", [si.MIXED[3]]), ("qform", ["str", "UnitValue"])],
                         const={"form": "two"}))
-    sysw = SYS36 if thorough else sys2
+    sysw = sys8 if thorough else sys2      # the reaction's own system is irrelevant to a rejection; 36 are used where values land
     sp.append(Space("kwrong: orders 0..8 x 0..8 x {kf,kr} x 26 wrong dimensions x {str, UnitValue} x {ctor, setter, set_k} x %d reaction systems: must raise"
                     % len(sysw), "kwrong",
                     [("n", ORDERS), ("m", ORDERS), ("which", ["kf", "kr"]), ("off", CUBE_OFF), ("qform", ["str", "UnitValue"]),
